@@ -98,7 +98,9 @@ def listdir(path, variables=None):
     try:
         names = os.listdir(path.string(variables))
         for name in names:
-            curpath = path.append(name)
+            # These are names of directory entries, not something a user
+            # typed: an entry called `~` or `~user` is just that.
+            curpath = path.append('./' + name)
             if isdir(curpath, variables):
                 dirs.append(curpath.as_directory())
             else:
